@@ -21,8 +21,9 @@ type Oracle struct {
 	committed   map[uint64][]byte      // header hash of every height first seen committed or published
 	maxHeight   uint64
 	// classes of the history (for signatures)
-	tornCommit bool // a crash cut a step between the store-height write and the state write
-	tornFiles  bool // a crash left a partly written cache file
+	tornCommit bool // a crash cut a step inside its commit group (between the state write and the store-height write)
+	cutStop    bool // a shutdown died between two cache files
+	tampered   bool // a cache file was truncated by hand (not a crash): start-up may then fail in LoadCache
 	earlyEmpty bool // an empty batch older than the last block was handed out
 }
 
@@ -50,7 +51,7 @@ func (o *Oracle) cause(dflt string) string {
 	switch {
 	case o.tornCommit:
 		return "crash-between-height-and-state-write"
-	case o.tornFiles:
+	case o.cutStop:
 		return "torn-cache-file"
 	case o.earlyEmpty:
 		return "empty-batch-with-earlier-timestamp"
@@ -73,6 +74,9 @@ func eqInts(a, b []int) bool {
 func (o *Oracle) afterBoot(idx int, it Item, initOK bool, err error) {
 	if initOK {
 		o.genesisRoot = RootID(idx)
+	}
+	if err != nil && o.tampered && classify(err) == "boot-fail-cache" {
+		return // damage by hand is outside the property; the model predicts this failure
 	}
 	if err != nil && !(it.InitErr && classify(err) == "boot-fail-init") {
 		o.fail(o.cause("boot-failed"), fmt.Sprintf("item %d: NewManager failed: %v", idx, err))
@@ -128,10 +132,10 @@ func (o *Oracle) afterStep(idx int, it Item, obs Obs, hdrs []*types.SignedHeader
 }
 
 func (o *Oracle) afterCrash(idx int, it Item, obs Obs) {
-	// the cut fell between the store-height write and the state write of a production step
-	if it.T == "step" && len(obs.Writes) > 0 {
+	// the cut fell inside the commit group of a production step: one of {state, store height} written, not the other
+	if it.T == "step" && len(obs.Writes) > 0 && (obs.State == nil || obs.State.H != obs.Height) {
 		last := obs.Writes[len(obs.Writes)-1]
-		if len(last) > 7 && last[:7] == "height:" && (obs.State == nil || obs.State.H != obs.Height) {
+		if last == "state" || (len(last) > 7 && last[:7] == "height:") {
 			o.tornCommit = true
 		}
 	}
@@ -268,7 +272,9 @@ func (o *Oracle) final() {
 		}
 		prevT, prevHdr = pb.T, sh
 	}
-	if h >= ini {
+	// recorded state = state after the last block: "after restart", i.e. while a process runs (the image a
+	// dead process left may have the store height one below the recorded state until the next start)
+	if h >= ini && w.node != nil {
 		s, err := st.GetState(w.ctx)
 		if err != nil {
 			o.fail(o.cause("height-state-disagree"), fmt.Sprintf("height %d but no state", h))
@@ -286,7 +292,9 @@ func (o *Oracle) probe(next int) {
 		obs := w.Run(idx, Item{T: "boot"})
 		idx++
 		if obs.Res != "boot-ok" {
-			o.fail(o.cause("cannot-start"), "a restart with a working execution layer fails: "+obs.ErrTxt)
+			if !(o.tampered && obs.Res == "boot-fail-cache") {
+				o.fail(o.cause("cannot-start"), "a restart with a working execution layer fails: "+obs.ErrTxt)
+			}
 			return
 		}
 	}
